@@ -12,6 +12,7 @@ import (
 	"fmt"
 	"google.golang.org/protobuf/reflect/protoreflect"
 	"google.golang.org/protobuf/runtime/protoimpl"
+	"math"
 	"os"
 	"reflect"
 	"strings"
@@ -27,6 +28,7 @@ import (
 	protoV1 "github.com/golang/protobuf/proto"   //nolint
 	"google.golang.org/protobuf/encoding/protojson"
 	"google.golang.org/protobuf/encoding/prototext"
+	"google.golang.org/protobuf/encoding/protowire"
 	"google.golang.org/protobuf/proto"
 	"google.golang.org/protobuf/types/descriptorpb"
 	"google.golang.org/protobuf/types/known/durationpb"
@@ -479,6 +481,8 @@ func streamC11(r *hx.Rng) {
 			fail("Unmarshal into an unsupported value did not return ErrUnmarshaler", "value="+nm.name, "ErrUnmarshaler", fmt.Sprint(err), "shim-nonmessage")
 		}
 	}
+	streamEqualNaN()
+	streamMixedRace(ps)
 	// first-use race: G goroutines classify a fresh type at once (type cache emptied through the verif hook)
 	trials := 200
 	if thorough {
@@ -515,6 +519,89 @@ func streamC11(r *hx.Rng) {
 	}
 }
 
+// goroutines classifying types of DIFFERENT runtimes at the same time (fresh cache and steady state): every answer
+// is the one a sequential call gives for that type
+func streamMixedRace(ps []probe) {
+	want := make([]csproto.MessageType, len(ps))
+	msgs := make([]interface{}, len(ps))
+	for i, p := range ps {
+		msgs[i] = p.mk()
+		want[i] = csproto.MsgType(msgs[i])
+	}
+	rounds, iters := 40, 4000
+	if thorough {
+		rounds, iters = 400, 8000
+	}
+	const G = 16
+	for t := 0; t < rounds; t++ {
+		if t%2 == 0 {
+			csproto.VerifResetMsgTypeCache()
+		}
+		var bad [G]string
+		var wg sync.WaitGroup
+		start := make(chan struct{})
+		for g := 0; g < G; g++ {
+			wg.Add(1)
+			go func(g int) {
+				defer wg.Done()
+				<-start
+				for it := 0; it < iters; it++ {
+					i := (g + it*(1+g%3)) % len(ps)
+					if it < iters/2 {
+						i = (g*5 + t) % len(ps) // first half: each goroutine hammers one type, neighbours other runtimes' types
+					}
+					if got := csproto.MsgType(msgs[i]); got != want[i] && bad[g] == "" {
+						bad[g] = fmt.Sprintf("probe=%s got=%s want=%s", ps[i].name, mtNames[got], mtNames[want[i]])
+					}
+				}
+			}(g)
+		}
+		close(start)
+		wg.Wait()
+		sink.OracleN++
+		for _, b := range bad {
+			if b != "" {
+				fail("a goroutine classifying one type while others classify types of other runtimes got another type's answer", b, "the sequential answer", b, "shim-race-mixed")
+				return
+			}
+		}
+	}
+	sink.Count("race-mixed-rounds")
+}
+
+// Equal on messages holding NaN, with themselves, a clone and a decoded copy: the owning runtime's answer (protobuf-go
+// treats NaN as equal to NaN, gogo and golang/protobuf v1 compare floats with ==)
+func streamEqualNaN() {
+	nan := math.NaN()
+	type np struct {
+		name, owner string
+		mk          func() interface{}
+	}
+	for _, p := range []np{
+		{"gogotypes.DoubleValue", "gogo", func() interface{} { return &gogotypes.DoubleValue{Value: nan} }},
+		{"gogotypes.FloatValue", "gogo", func() interface{} { return &gogotypes.FloatValue{Value: float32(nan)} }},
+		{"gogotypes.Value", "gogo", func() interface{} { return &gogotypes.Value{Kind: &gogotypes.Value_NumberValue{NumberValue: nan}} }},
+		{"gogotypes.ListValue", "gogo", func() interface{} {
+			return &gogotypes.ListValue{Values: []*gogotypes.Value{{Kind: &gogotypes.Value_NumberValue{NumberValue: 1}}, {Kind: &gogotypes.Value_NumberValue{NumberValue: nan}}}}
+		}},
+		{"wrapperspb.DoubleValue", "google", func() interface{} { return wrapperspb.Double(nan) }},
+		{"structpb.Value", "google", func() interface{} { return structpb.NewNumberValue(nan) }},
+	} {
+		m := p.mk()
+		c := csproto.Clone(m)
+		for _, pair := range []struct {
+			how  string
+			a, b interface{}
+		}{{"itself", m, m}, {"clone", m, c}, {"rebuilt", m, p.mk()}} {
+			sink.OracleN++
+			want := ownerEqual(p.owner, pair.a, pair.b)
+			if got := csproto.Equal(pair.a, pair.b); got != want {
+				fail("Equal differs from the owning runtime's Equal on a message holding NaN", fmt.Sprintf("probe=%s compared-with=%s", p.name, pair.how), fmt.Sprint(want), fmt.Sprint(got), "shim-equal-nan")
+			}
+		}
+	}
+}
+
 func guardErr(f func() error) (err error) {
 	defer func() {
 		if x := recover(); x != nil {
@@ -539,6 +626,8 @@ func main() {
 		streamC11(r)
 	case "C12":
 		streamC12(r)
+	case "C09":
+		streamC09(r)
 	case "C18":
 		streamC18(r)
 	default:
@@ -583,6 +672,136 @@ func growSomeField(m interface{}) (done bool) {
 			return true
 		case protoreflect.Int32Kind:
 			rm.Set(fd, protoreflect.ValueOfInt32(int32(rm.Get(fd).Int())^0x7ffffff))
+			return true
+		}
+	}
+	return false
+}
+
+// C09, the part outside generated code: messages WITHOUT fastmarshal methods (well-known types, plain protoc-gen-go /
+// gogo messages) are sized and encoded by csproto.Size / Marshal / Encoder.EncodeNested through the owning runtime,
+// which caches sizes inside the message.  Histories of {size, marshal, runtime marshal, encode-as-nested, modify}: after
+// every observation the answer equals the one for a fresh deep copy of the current contents.
+func streamC09(r *hx.Rng) {
+	type np struct {
+		name, owner string
+		mk          func() interface{}
+	}
+	ps := []np{
+		{"timestamppb", "google", func() interface{} { return &timestamppb.Timestamp{Seconds: 1, Nanos: 2} }},
+		{"durationpb", "google", func() interface{} { return &durationpb.Duration{Seconds: 5} }},
+		{"wrapperspb.String", "google", func() interface{} { return wrapperspb.String("abc") }},
+		{"structpb.Value", "google", func() interface{} { return structpb.NewStringValue("s") }},
+		{"typepb.Field", "google", func() interface{} { return &typepb.Field{Name: "f", Number: 3} }},
+		{"descriptorpb.Field", "google", func() interface{} {
+			return &descriptorpb.FieldDescriptorProto{Name: proto.String("x"), Number: proto.Int32(3)}
+		}},
+		{"gogotypes.Timestamp", "gogo", func() interface{} { return &gogotypes.Timestamp{Seconds: 1, Nanos: 2} }},
+		{"gogodesc.Field", "gogo", func() interface{} { return &gogodesc.FieldDescriptorProto{Name: str("x"), Number: i32(3)} }},
+	}
+	n := 60
+	if thorough {
+		n = 1500
+	}
+	for _, p := range ps {
+		for h := 0; h < n; h++ {
+			m := p.mk()
+			var hist []string
+			for step := 0; step < 3+r.Intn(6); step++ {
+				op := []string{"size", "marshal", "owner-marshal", "nested", "modify", "modify"}[r.Intn(6)]
+				if step == 0 {
+					op = []string{"size", "marshal", "owner-marshal", "nested"}[h%4]
+				}
+				hist = append(hist, op)
+				cs := fmt.Sprintf("probe=%s history=%s", p.name, strings.Join(hist, ","))
+				fresh := csproto.Clone(m)
+				want, werr := ownerMarshal(p.owner, fresh)
+				if werr != nil {
+					break
+				}
+				sink.OracleN++
+				switch op {
+				case "modify":
+					sink.OracleN--
+					if !modifySize(r, m) {
+						hist = hist[:len(hist)-1]
+					}
+				case "size":
+					if got := csproto.Size(m); got != len(want) {
+						fail("csproto.Size of a message without generated code does not describe its current contents", cs, fmt.Sprint(len(want)), fmt.Sprint(got), "shim-stale-size")
+						return
+					}
+				case "marshal":
+					if got, err := csproto.Marshal(m); err != nil || len(got) != len(want) || !ownerRoundTrips(p.owner, got, m) {
+						fail("csproto.Marshal of a message without generated code does not describe its current contents", cs, hx.B(want), hx.B(got), "shim-stale-marshal")
+						return
+					}
+				case "owner-marshal":
+					_, _ = ownerMarshal(p.owner, m)
+				case "nested":
+					// what generated code does for a field of such a type: room from csproto.Size, bytes from EncodeNested
+					tag := []int{1, 15, 16, 2047, 2048}[r.Intn(5)]
+					l := csproto.Size(m)
+					buf := make([]byte, csproto.SizeOfTagKey(tag)+csproto.SizeOfVarint(uint64(l))+l)
+					out := guard(func() string {
+						e := csproto.NewEncoder(buf)
+						if err := e.EncodeNested(tag, m); err != nil {
+							return "err " + err.Error()
+						}
+						return hx.B(buf)
+					})
+					exp := protowire.AppendBytes(protowire.AppendTag(nil, protowire.Number(tag), protowire.BytesType), want)
+					okLen := len(buf) == len(exp)
+					var body []byte
+					if okLen && !strings.HasPrefix(out, "err") && out != "panic" {
+						_, _, kn := protowire.ConsumeTag(buf)
+						body, _ = protowire.ConsumeBytes(buf[kn:])
+					}
+					if !okLen || body == nil && len(want) > 0 || !ownerRoundTrips(p.owner, body, m) {
+						fail("a message without generated code, encoded as a nested field in a buffer sized by csproto.Size, is not key + length + its current contents", cs, hx.B(exp), out, "shim-stale-nested")
+						return
+					}
+				}
+			}
+			sink.Count("c09-shim-history:" + p.owner)
+		}
+	}
+}
+
+func ownerRoundTrips(owner string, b []byte, m interface{}) bool {
+	d := reflect.New(reflect.TypeOf(m).Elem()).Interface()
+	return ownerUnmarshal(owner, b, d) == nil && ownerEqual(owner, d, m)
+}
+
+// modifySize changes one singular string / integer field in place (through protoreflect) to a value of another encoded size
+func modifySize(r *hx.Rng, m interface{}) (done bool) {
+	defer func() {
+		if recover() != nil {
+			done = false
+		}
+	}()
+	var rm protoreflect.Message
+	if pm, ok := m.(proto.Message); ok {
+		rm = pm.ProtoReflect()
+	} else {
+		rm = protoimpl.X.ProtoMessageV2Of(m).ProtoReflect()
+	}
+	fds := rm.Descriptor().Fields()
+	start := r.Intn(fds.Len())
+	for i := 0; i < fds.Len(); i++ {
+		fd := fds.Get((start + i) % fds.Len())
+		if fd.IsList() || fd.IsMap() {
+			continue
+		}
+		switch fd.Kind() {
+		case protoreflect.StringKind:
+			rm.Set(fd, protoreflect.ValueOfString(strings.Repeat("g", []int{0, 1, 40, 127, 128, 300}[r.Intn(6)])))
+			return true
+		case protoreflect.Int64Kind, protoreflect.Sint64Kind:
+			rm.Set(fd, protoreflect.ValueOfInt64([]int64{0, 1, 300, 1 << 40, -1}[r.Intn(5)]))
+			return true
+		case protoreflect.Int32Kind:
+			rm.Set(fd, protoreflect.ValueOfInt32([]int32{0, 1, 300, 1 << 30, -1}[r.Intn(5)]))
 			return true
 		}
 	}
